@@ -166,6 +166,68 @@ pub fn any_source(class: PvClass) -> (Src, Pre) {
     (src, Pre { pv, has_pending, pending_id, deadline, base, reach, tries, last_poll, remote_min, have_deny, desired })
 }
 
+/// `handle_timer` builds and serialises a packet whose shape depends on the version state; with a
+/// symbolic state CBMC executes all four serialisers on every path (the v5 one alone does not
+/// finish). `for_pv!(k, run)` calls `run(<variant>)` once per variant with the variant a literal;
+/// the closure pins the source to it with `pin_pv` (the upgrade counter stays symbolic).
+#[macro_export]
+macro_rules! for_pv {
+    (v4fam, $k:expr, $run:ident) => {
+        match $k {
+            0 => $run(0u8),
+            1 => $run(1u8),
+            _ => kani::assume(false),
+        }
+    };
+    (v5fam, $k:expr, $run:ident) => {
+        match $k {
+            2 => $run(2u8),
+            3 => $run(3u8),
+            _ => kani::assume(false),
+        }
+    };
+}
+
+/// `timer_step!(v4fam|v5fam, src, pre)` = one `handle_timer` with the version state pinned to a
+/// literal variant per arm; evaluates to the collected actions.
+#[macro_export]
+macro_rules! timer_step {
+    ($fam:ident, $src:expr, $pre:expr) => {{
+        let mut acts = $crate::common::Acts { n: 0, kinds: [0; 3], sent: None };
+        let mut run = |k: u8| {
+            $crate::common::pin_pv(&mut $src, &$pre, k);
+            acts = $crate::common::collect($src.handle_timer());
+        };
+        $crate::for_pv!($fam, $crate::common::pv_index($pre.pv), run);
+        acts
+    }};
+}
+
+pub fn pv_index(pv: ProtocolVersion) -> u8 {
+    match pv {
+        ProtocolVersion::V4 => 0,
+        ProtocolVersion::V4UpgradingToV5 { .. } => 1,
+        ProtocolVersion::UpgradedToV5 => 2,
+        ProtocolVersion::V5 => 3,
+    }
+}
+
+/// Re-write the version state of `src` with a literal variant (`k` must be a literal and equal
+/// to `pv_index(pre.pv)`, which the caller's dispatch guarantees).
+pub fn pin_pv(src: &mut Src, pre: &Pre, k: u8) {
+    let t = match pre.pv {
+        ProtocolVersion::V4UpgradingToV5 { tries_left } => tries_left,
+        _ => 8,
+    };
+    let pv = match k {
+        0 => ProtocolVersion::V4,
+        1 => ProtocolVersion::V4UpgradingToV5 { tries_left: t },
+        2 => ProtocolVersion::UpgradedToV5,
+        _ => ProtocolVersion::V5,
+    };
+    sh::set_protocol_version(src, pv);
+}
+
 // ------------------------------------------------------------------ packets (raw bytes)
 //
 // How packets are made symbolic (measured, see the builder report):
@@ -175,8 +237,8 @@ pub fn any_source(class: PvClass) -> (Src, Pre) {
 //   after which the extension-field parser explodes (> 10 min). So octet 0 (LI|VN|Mode), and for
 //   v5 also octets 12, 14, 15 (timescale, flags), are chosen by a `match` over literal values
 //   (`for_b0!`, `for_v5hdr!`): one symbolic execution per literal, every other octet symbolic.
-// * Arrays above 64 elements are not field-sensitive in CBMC (constants inside are lost), so the
-//   76-byte v5 template is a struct of two arrays viewed as one slice.
+// * Arrays above 64 elements are not field-sensitive in CBMC (constants inside are lost): the crate
+//   passes `--max-field-sensitivity-array-size 160` (Cargo.toml) for the 76-byte v5 template.
 // * A slice that ends exactly at the end of its object makes the decoder's "rest of the buffer"
 //   pointer one-past-the-end, whose null check CBMC cannot fold either: 8 bytes of slack follow
 //   the packet inside the same object (never part of the slice handed to the code).
@@ -208,23 +270,22 @@ impl Pkt4 {
         }
     }
 }
-#[repr(C)]
 pub struct Pkt5 {
-    pub h: [u8; 48],
-    pub ef: [u8; 28],
-    pub slack: [u8; 8],
+    /// 76 packet bytes + 8 bytes slack
+    pub b: [u8; 84],
 }
 impl Pkt5 {
     pub fn bytes(&self) -> &[u8] {
-        unsafe { std::slice::from_raw_parts(self as *const Pkt5 as *const u8, V5_LEN) }
+        &self.b[..V5_LEN]
     }
-    /// fix the parse-deciding header octets (call with literals, see `for_v5hdr!`)
+    /// fix the parse-deciding header octets and the last character of the draft text
+    /// (call with literals, see `for_v5hdr!`)
     pub fn set_hdr(&mut self, b0: u8, b12: u8, b14: u8, b15: u8, last: u8) {
-        self.h[0] = b0;
-        self.h[12] = b12;
-        self.h[14] = b14;
-        self.h[15] = b15;
-        self.ef[26] = last;
+        self.b[0] = b0;
+        self.b[12] = b12;
+        self.b[14] = b14;
+        self.b[15] = b15;
+        self.b[74] = last;
     }
 }
 
@@ -238,19 +299,20 @@ pub fn any_pkt4() -> Pkt4 {
 /// length of the decoded field list symbolic, and dropping that list then does not finish
 /// symbolic execution); the dispatch also runs one wrong draft text.
 #[cfg(kani)]
-#[rustfmt::skip]
 pub fn any_pkt5() -> Pkt5 {
     let h: [u8; 48] = kani::any();
-    let last: u8 = b'9';
-    let pad: u8 = 0;
-    Pkt5 {
-        h,
-        ef: [
-            0xF5, 0xFF, 0, 27, b'd', b'r', b'a', b'f', b't', b'-', b'i', b'e', b't', b'f', b'-', b'n',
-            b't', b'p', b'-', b'n', b't', b'p', b'v', b'5', b'-', b'0', last, pad,
-        ],
-        slack: [0; 8],
-    }
+    // one literal (no loops: keeps the unwind bound of the harnesses small)
+    #[rustfmt::skip]
+    let b: [u8; 84] = [
+        h[0], h[1], h[2], h[3], h[4], h[5], h[6], h[7], h[8], h[9], h[10], h[11],
+        h[12], h[13], h[14], h[15], h[16], h[17], h[18], h[19], h[20], h[21], h[22], h[23],
+        h[24], h[25], h[26], h[27], h[28], h[29], h[30], h[31], h[32], h[33], h[34], h[35],
+        h[36], h[37], h[38], h[39], h[40], h[41], h[42], h[43], h[44], h[45], h[46], h[47],
+        0xF5, 0xFF, 0, 27, b'd', b'r', b'a', b'f', b't', b'-', b'i', b'e',
+        b't', b'f', b'-', b'n', b't', b'p', b'-', b'n', b't', b'p', b'v', b'5',
+        b'-', b'0', b'9', 0, 0, 0, 0, 0, 0, 0, 0, 0,
+    ];
+    Pkt5 { b }
 }
 
 /// Run `$run(<literal>)` for the octet-0 value `$b` (LI<<6 | VN<<3 | Mode); other values of `$b`
@@ -261,6 +323,9 @@ pub fn any_pkt5() -> Pkt5 {
 macro_rules! for_b0 {
     (quick, $b:expr, $run:ident) => {
         $crate::for_b0!(@m $b, $run, [0x24, 0x23, 0x1C, 0x2C])
+    };
+    (servers, $b:expr, $run:ident) => {
+        $crate::for_b0!(@m $b, $run, [0x24, 0x1C])
     };
     (full, $b:expr, $run:ident) => {
         $crate::for_b0!(@m $b, $run, [
@@ -278,20 +343,18 @@ macro_rules! for_b0 {
 }
 
 /// Run `$run(b0, b12, b14, b15, last)` with literal parse-deciding octets of an NTPv5 header and
-/// the last character of the draft text. `quick`: server mode with flags {none, synchronized,
-/// auth-NAK}, request mode, a malformed mode and a wrong draft text. `all` adds timescales,
+/// the last character of the draft text. `quick`: server mode with flags {synchronized, auth-NAK},
+/// request mode and a wrong draft text. `all` adds no flags, a malformed mode, timescales,
 /// interleaved flag, LI=3, reserved flag bits, timescale 4, and the 76-byte template under
 /// versions 4 and 3 (undecodable).
 #[macro_export]
 macro_rules! for_v5hdr {
     (quick, $sel:expr, $run:ident) => {
         match $sel {
-            0 => $run(0x2C, 0, 0, 0b000, b'9'),
-            1 => $run(0x2C, 0, 0, 0b001, b'9'),
-            2 => $run(0x2C, 0, 0, 0b100, b'9'),
-            3 => $run(0x2B, 0, 0, 0b001, b'9'),
-            4 => $run(0x2D, 0, 0, 0b001, b'9'),
-            5 => $run(0x2C, 0, 0, 0b001, b'8'),
+            0 => $run(0x2C, 0, 0, 0b001, b'9'),
+            1 => $run(0x2C, 0, 0, 0b100, b'9'),
+            2 => $run(0x2B, 0, 0, 0b001, b'9'),
+            3 => $run(0x2C, 0, 0, 0b001, b'8'),
             _ => kani::assume(false),
         }
     };
